@@ -602,6 +602,56 @@ def canary_trace(chk: Check, trace):
     chk.note(f"canary: corrupted trace rejected at line {line}")
 
 
+def unused_side_probe(chk: Check, rng):
+    """UpdaterCore: with half kernels a potentiation-only application uses the upper kernel ONLY and a depression-only
+    one the lower kernel ONLY ("a component nobody contributed to takes no part").  The graphs use integer orders, where
+    an evaluated-and-discarded kernel cannot be seen; here the unused side carries a FRACTIONAL order and some parameter
+    elements lie beyond its limit (where that kernel is NaN): the result must be finite and equal to that of a twin whose
+    unused side is not configured at all."""
+    import torch
+    import inferno.functional as F
+    from inferno.neural import LinearDense, DeltaCurrent
+    n = 0
+    for used in ("neg", "pos"):
+        for unused_fn, kw in ((F.bound_upper_power if used == "neg" else F.bound_lower_power, {"power": 0.5}),
+                              (F.bound_upper_scaled_power if used == "neg" else F.bound_lower_scaled_power, {"power": 1.5, "range": 1.0})):
+            for f64 in (False, True):
+                g = torch.Generator().manual_seed(rng.randrange(1 << 30))
+                w0 = torch.rand(3, 4, generator=g) * 0.5 + 0.25
+                # elements beyond the UNUSED side's limit (above the maximum for a depression, below the minimum else)
+                w0[0, 0], w0[1, 2] = (1.25, 1.5) if used == "neg" else (-0.25, -0.5)
+                part = torch.rand(3, 4, generator=g) * 0.1
+
+                def build(with_unused):
+                    c = LinearDense((4,), (3,), 1.0, synapse=DeltaCurrent.partialconstructor(1.0), weight_init=lambda w: w0.clone())
+                    if f64:
+                        c = c.double()
+                    c.updater = c.defaultupdater()
+                    if used == "neg":
+                        c.updater.weight.lowerbound(F.bound_lower_multiplicative, -2.0)
+                        if with_unused:
+                            c.updater.weight.upperbound(unused_fn, 1.0, **kw)
+                    else:
+                        c.updater.weight.upperbound(F.bound_upper_multiplicative, 3.0)
+                        if with_unused:
+                            c.updater.weight.lowerbound(unused_fn, 0.0, **kw)
+                    c.updater.weight = (None, part.to(c.weight.dtype)) if used == "neg" else (part.to(c.weight.dtype), None)
+                    c.update()
+                    return c.weight.detach().clone()
+                n += 1
+                try:
+                    a, b = build(True), build(False)
+                except Exception as ex:
+                    chk.violation({"clause": "Raised", "site": "unused-side", "used": used, "exc": type(ex).__name__}, {"error": repr(ex)})
+                    continue
+                if not bool(torch.isfinite(a).all()) or not torch.allclose(a, b, rtol=1e-6, atol=1e-7):
+                    chk.violation({"clause": "UnusedSideEvaluated", "site": "unused-side", "used": used, "kernel": unused_fn.__name__},
+                                  {"float64": f64, "with_unused_bound": a.reshape(-1).tolist(), "without": b.reshape(-1).tolist(),
+                                   "w0": w0.reshape(-1).tolist(), "part": part.reshape(-1).tolist(), "kwargs": kw})
+    chk.evaluations += n
+    chk.note(f"unused half kernel (fractional order, parameters beyond its limit) takes no part: {n} twin comparisons")
+
+
 def run(tier: str, seed: int) -> int:
     import os
     os.environ.setdefault("_JAVA_OPTIONS", "-Xmx2g")    # small models: keep the JVMs of this check small
@@ -643,6 +693,7 @@ def run(tier: str, seed: int) -> int:
     else:
         chk.note("canary(trace): every recorded trace with an update was rejected (reported above); "
                  "the replay canary stands")
+    unused_side_probe(chk, rng)
     return chk.finish()
 
 
